@@ -300,8 +300,21 @@ func (en *env) hasLazy(name string) bool {
 	return ok
 }
 
+// derefVar: a variable captured by reference in a closure is a pointer to the variable; contracts name the
+// variable, so a pointer-to-pointer is dereferenced once where a pointer to a struct is expected.
+func (en *env) derefVar(base TV) TV {
+	if p, ok := base.T.Underlying().(*types.Pointer); ok {
+		if _, ok2 := p.Elem().Underlying().(*types.Pointer); ok2 {
+			pv := en.r.asPtr(base.V, base.T)
+			return TV{V: en.r.load(en.state(), pv.L), T: p.Elem()}
+		}
+	}
+	return base
+}
+
 func (en *env) fieldOf(base TV, name string) TV {
 	r := en.r
+	base = en.derefVar(base)
 	t := base.T
 	if p, ok := t.Underlying().(*types.Pointer); ok {
 		pv := r.asPtr(base.V, t)
@@ -635,6 +648,34 @@ func (en *env) call(x *ast.CallExpr, want types.Type) TV {
 				return TV{V: Scalar{c.True()}, T: types.Typ[types.Bool]}
 			}
 			return TV{V: Scalar{c.Implies(ante, en.evalBool(x.Args[1]))}, T: types.Typ[types.Bool]}
+		case "apply":
+			// apply(f, args...): application of a function value, the same uninterpreted pure application
+			// the executor uses for calls through function values
+			fvTV := en.eval(x.Args[0], nil)
+			sig, ok := fvTV.T.Underlying().(*types.Signature)
+			if !ok {
+				en.errf("apply: %s is not a function value", types.ExprString(x.Args[0]))
+			}
+			var fv FuncV
+			switch v := fvTV.V.(type) {
+			case FuncV:
+				fv = v
+			case Scalar:
+				fv = FuncV{Opaque: v.T}
+			}
+			var vals []Value
+			for i, a := range x.Args[1:] {
+				var pt types.Type
+				if i < sig.Params().Len() {
+					pt = sig.Params().At(i).Type()
+				}
+				vals = append(vals, en.coerceTo(en.eval(a, pt), pt).V)
+			}
+			res := r.pureApp(fmt.Sprintf("dyn$%s", typeKey(fvTV.T)), FuncV{Opaque: fv.Opaque}, vals, sig.Results())
+			if sig.Results().Len() == 1 {
+				return TV{V: res, T: sig.Results().At(0).Type()}
+			}
+			return TV{V: res, T: sig.Results()}
 		case "arr", "off":
 			// arr(s): the backing array of slice s as an SMT array; off(s): index of s[0] in it
 			a := en.eval(x.Args[0], nil)
@@ -793,7 +834,7 @@ func (en *env) call(x *ast.CallExpr, want types.Type) TV {
 			}
 		}
 		// method call on a value: recv.M(args)
-		recv := en.eval(sel.X, nil)
+		recv := en.derefVar(en.eval(sel.X, nil))
 		if m := en.findMethod(recv.T, sel.Sel.Name); m != nil {
 			return en.progCallVals(m, append([]TV{recv}, en.evalArgs(x.Args, m, 1)...))
 		}
@@ -943,18 +984,36 @@ func (en *env) specCall(sf *SpecFn, args []ast.Expr) TV {
 	r := en.r
 	c := r.C()
 	if sf.Raw {
-		if len(args) != len(sf.Params) {
-			en.errf("spec %s: %d arguments, want %d", sf.Name, len(args), len(sf.Params))
-		}
+		// arguments may be composite (an interface value is its (tag, payload) pair, a function value its
+		// id): they are flattened onto the declared SMT parameters
 		var ts []*smt.Term
-		for i, a := range args {
-			tv := en.coerceTo(en.eval(a, sf.Params[i]), sf.Params[i])
-			t := en.scalar(tv)
-			want := r.scalarSort(sf.Params[i])
-			if t.Sort != want {
+		for _, a := range args {
+			var hint types.Type
+			if len(ts) < len(sf.Params) {
+				hint = sf.Params[len(ts)]
+			}
+			tv := en.eval(a, hint)
+			if tv.C != nil {
+				tv = en.coerceTo(tv, hint)
+			}
+			switch v := tv.V.(type) {
+			case Scalar:
+				ts = append(ts, v.T)
+			default:
+				fl := r.flatten(tv.V)
+				if len(fl) == 0 {
+					en.errf("spec %s: argument %s has no SMT representation", sf.Name, types.ExprString(a))
+				}
+				ts = append(ts, fl...)
+			}
+		}
+		if len(ts) != len(sf.Params) {
+			en.errf("spec %s: %d SMT arguments, want %d", sf.Name, len(ts), len(sf.Params))
+		}
+		for i, t := range ts {
+			if want := r.scalarSort(sf.Params[i]); t.Sort != want {
 				en.errf("spec %s: argument %d has sort %s, want %s", sf.Name, i, t.Sort, want)
 			}
-			ts = append(ts, t)
 		}
 		return TV{V: Scalar{c.App(sf.Name, ts...)}, T: sf.Result}
 	}
